@@ -356,7 +356,7 @@ def jobs(tier):
 
 
 BOUNDS = {
-    "quick": "per tool: j=0..N+1 items taken then aclose (also with sources whose aclose() suspends); or one fault (3 kinds) at symbolic use position k; or consumer athrow after j items; N<=2 items per source, S<=3 sources; sources = async generators and class-based iterators with aclose (also mixed with sync iterables, and class-based ones that are also sync-iterable); tee: 2..3 children, j_i items each, every closing order or handle.aclose(); groupby: 0..3 advances, 0..2 group items, then aclose; aggregations incl. failures in +, hash, unpack and comparison",
+    "quick": "per tool: j=0..N+1 items taken then aclose (also with sources whose aclose() suspends); or one fault (3 kinds) at symbolic use position k; or consumer athrow after j items; N<=2 items per source, S<=3 sources; sources = async generators and class-based iterators with aclose (also mixed with sync iterables or an async iterator without aclose in front, and class-based ones that are also sync-iterable); tee: 2..3 children, j_i items each, every closing order or handle.aclose(); groupby: 0..3 advances, 0..2 group items, then aclose; aggregations incl. failures in +, hash, unpack and comparison",
     "thorough": "N<=3",
 }
 OUTSIDE = ["invalid parameters (batched n<1: the tool refuses before taking ownership)", "chain.from_iterable owns only the iterables already fetched from the outer iterable (documented)", "generator-based tools that were never advanced (the property's obligation starts with the first advance)", "sources without aclose (nothing to release)", "lengths above the bound"]
